@@ -3,15 +3,17 @@ import vlib
 class P(vlib.Prop):
     id = "C09"
     coq_targets = ["Properties/C09.vo", "Corr/C09.vo", "Proofs/LockResolverBridge.vo"]
+    watch = ("pkg/build/lock.go", "internal/cli/lock.go", "internal/cli/build.go", "pkg/build/installable_from_lock.go", "pkg/apk/apk/resolveapk.go")
     rule = ("unify stage: hand-picked corners, then generated per-architecture resolutions (1-3 architectures, versions/provides diverging "
             "with increasing probability, packages missing on some architectures, virtuals requested by provided name, pinned and "
             "operator-carrying originals, duplicates, malformed originals) through the real build.unify (verif hook), every input "
             "run 6 times so Go's map randomisation samples iteration orders; provname stage: pkg/build's packageNameRegex sub-match. "
             "api stage: synthetic signed repositories for 1-3 architectures (harness/synthrepo; versions present on some architectures only, "
             "virtuals requested by provided name, providers differing per architecture, tagged repositories with pinned requests, operators, "
-            "duplicates; corpus: every finding's replay incl. C09-F6 member-excluded-by-conflict-entry-of-member) through build.NewMultiArch/BuildPackageLists and build.LockImageConfiguration (3-4 runs each), then every emitted lock "
+            "duplicates, conflict entries of every kind (plain, versioned, against virtual and absent names), tagged packages that provide a virtual another package needs; corpus: every finding's replay incl. C09-F6 member-excluded-by-conflict-entry-of-member and C09-F8 pinned-virtual-provider-reached-through-unpinned-member) through build.NewMultiArch/BuildPackageLists and build.LockImageConfiguration (3-4 runs each), then every emitted lock "
             "resolved again (each per-architecture relock also by Model/Resolver.v: the ORDERED install list must equal the model's, which is a function of its inputs since fix c03e0c0); cli stage: `apko lock` (lock.json entries judged against the package files: ranges, sha1/sha256 recomputed over the "
-            "recorded ranges) and `apko build` with and without --lockfile (installed database and image manifest), including a repository that "
+            "recorded ranges) and `apko build` with and without --lockfile (installed database and image manifest; the order of lock.json and the install order of the unlocked build are "
+            "compared with Model/Resolver.v on the request list resp. on the lock list of LockImageConfiguration - Model/LockBuild.v, the mechanism of C09-F5, corpus scenario install-order-of-lock-list-differs), including a repository that "
             "publishes a newer version after locking. A case is non-trivial when it has >= 2 architectures and a non-empty request list; "
             "distinct = distinct case terms.")
     stages = (
@@ -24,8 +26,10 @@ class P(vlib.Prop):
         "inputs of unify are as LockImageConfiguration builds them (packages = keys of versions; distinct architectures, none called 'index'); the harness also feeds ill-formed ones to the model comparison only",
         "expandapk reports the byte sizes of the three gzip members and sha1(signature), sha1(control), sha256(data): modelled by `expand` over hash parameters, checked against real .apk files by the cli stage",
         "c09_fixpoint_partial is about an abstract resolver with three stated hypotheses (sound, minimal, finds the solution of an exact lock); c09_fixpoint_resolver_partial examines them for Model/Resolver.v (the model C02/C08/C14 tie to repo.go by differential comparison) inside the envelope of c02_closed_partial: sound and minimal are proved, the third is refuted in general (C09-F6) and proved under three stated extra hypotheses",
-        "c09_fixpoint_resolver_partial speaks of ONE architecture's resolution and of the lock entries name=version of its members in any order; the @pin part of entries and the cross-architecture intersection are the business of the unify theorems",
-        "the pin of a lock entry is unify's own reading of the request (text from the first '@'); the validators use the resolver's grammar (C03 model) instead and agree on every generated case",
+        "c09_fixpoint_resolver_partial / c09_fixpoint_pinned_partial speak of ONE architecture's resolution and of the lock entries name=version[@pin] of its members in any order (arch_lock = what unify stores under that architecture); the cross-architecture intersection is the business of the unify theorems",
+        "the pin of a lock entry is unify's own reading of the request (text from the first '@'); c09_unify_pin_is_spec_pin proves that it is the resolver grammar's reading (C03 model) on every request that matches packageNameRegex and is not rewritten by the soname special case (a so: name with '=' whose version lacks a release); the validators use spec_pin on all generated cases",
+        "LockImageConfiguration visits the architectures in the order goextract reads from its loop (sorted key slice = 'sorted'); the sort key types.Architecture is taken to be the canonical OCI name that also becomes r.arch",
+        "Model/LockBuild.v (where lock.json's order and the unlocked build's install order come from) is a hand-written reading of LockCmd / buildImage / buildImageComponents for one architecture without base image, tied to the CLI by the cli stage's ordered comparison",
     )
     level_text = ("c09_unify_index / c09_unify_per_arch / c09_unify_order_independent hold for every request list, every number of architectures and every "
                   "set/map iteration order of an executable model of build.unify whose delimiters, formats and sentinel key are regenerated from lock.go; "
@@ -35,14 +39,14 @@ class P(vlib.Prop):
                   "and, for the resolver model Model/Resolver.v inside the envelope of c02_closed_partial, c09_fixpoint_resolver_partial proves that every list of the lock "
                   "entries of a result resolves — when it resolves — to exactly the same members, and that it does resolve when every member answers its own entry, no member is "
                   "excluded by a member's conflict entry and dependencies are well-formed; c09_fixpoint_resolver_refuted shows that without the second condition it does not "
-                  "(finding C09-F6, reproduced on the real code); the fixpoint is also searched for counterexamples on the real code end to end (findings C09-F1, F2, F4, F6). The model is tied to the code by differential comparison through a verif hook and "
+                  "(finding C09-F6, reproduced on the real code); c09_fixpoint_pinned_partial extends this to members of tagged repositories and entries name=version@tag (which entries carry a tag: unify_pin = spec_pin, only requested names; an untagged entry of a tagged member never resolves = C09-F1; it resolves when every tagged member carries its tag and is depended on by its own name only; c09_fixpoint_pinned_refuted: C09-F1 and the new C09-F8); c09_resolved_of_wf / c09_lock_image_configuration_inputs remove the well-formedness side condition for real calls; c09_unify_arch_order_lists_equal / _independent / c09_shared_lock_sorted_order_deterministic settle the order of the architectures (equal results whenever both orders succeed; same success when the architectures agree on the providers of the requested names; LockImageConfiguration a function of the set of resolutions since it sorts); c09_locked_vs_unlocked_install_order states the mechanism of C09-F5; the fixpoint is also searched for counterexamples on the real code end to end (findings C09-F1, F2, F4, F6, F7, F8). The model is tied to the code by differential comparison through a verif hook and "
                   "by validators evaluated in Coq on outputs of LockImageConfiguration, apko lock and apko build --lockfile.")
     level_note = ("trusted: Coq kernel, goextract, Go harness/printer, synthrepo's independent apk writer; modelled not verified: Go text of unify/LockCmd/"
-                  "installablePackagesForArch, expandapk's member splitting, sets.Set/reflect.DeepEqual semantics; the resolver is the hand-written model of C02 (Model/Resolver.v), tied to repo.go by "
+                  "installablePackagesForArch/buildImageComponents, expandapk's member splitting, sets.Set/reflect.DeepEqual semantics, SetWorld's sorting; the resolver is the hand-written model of C02 (Model/Resolver.v), tied to repo.go by "
                   "C02's differential stage, and c09_fixpoint_resolver_partial holds only inside C02's envelope (one provider per name, no install_if, ...); correspondence is differential testing, not proof")
     design_ref = "DESIGN.md 7 C09"
     modelled_not_verified = ("unify, LockImageConfiguration's construction of its inputs, one lock.json entry, installablePackagesForArch and the version test of filterPackages "
-                             "are modelled by hand (Model/Lock.v); regex, delimiters, formats, sentinel, range arithmetic and field copies are regenerated from the source; "
+                             "are modelled by hand (Model/Lock.v), as are the visiting order of the architectures (Model/LockArchOrder.v over the generated lock_archs_order) and the origin of the two install orders (Model/LockBuild.v); regex, delimiters, formats, sentinel, range arithmetic, field copies and the shape of LockImageConfiguration's architecture loop are regenerated from the source; "
                              "resolution, fetching, expandapk, JSON encoding and the image build are exercised end to end only")
 
 PROP = P()
